@@ -79,28 +79,35 @@ structure PState where
   failed : Bool                    -- client.failed
   bgRead : Bool                    -- a read of the stream is still running in the background
   streamFault : Bool               -- ghost: a stream-level fault happened before cancel()
+  ended : Option Nat               -- the stream has ended with this gRPC status (refusal, shutdown, …)
+  timeoutFault : Bool              -- ghost: a Send/Recv failed by itself (timeout, broken connection) before cancel()
   deriving Repr
 
 inductive Label where
-  | reqSend | reqSendFault (e : Err) | reqSignal | reqFinish
-  | serve
-  | rcvTake | rcvCancelled | rcvRecv | rcvFault (e : Err) (bg : Bool) | rcvFinish
+  | reqSend | reqSendFault (e : Err) | reqSendEOF | reqSignal | reqFinish
+  | serve | streamEnd (c : Nat)
+  | rcvTake | rcvCancelled | rcvRecv | rcvStatus | rcvFault (e : Err) (bg : Bool) | rcvFinish
   | mainReadSend | mainReadRecv | mainJoin
   | closeSend | closeRecvCall | closeSkipRecv | closeRecvRet | closeClose
   deriving DecidableEq, Repr
 
 def codeCanceled : Nat := 1
 
+/-- marker for "io.EOF from Send" (`status.Code` of the wrapped error is Unknown; the marker keeps it apart) -/
+def codeEOF : Nat := 1000
+
 /-- `len(requests) == 0`: no goroutines at all -/
 def init (n : Nat) : PState :=
   if n = 0 then
     { rpc := .done, vpc := .done, mpc := .returned, wire := 0, served := 0, sem := 0, sig := 0, taken := 0,
       sendErr := none, recvErr := none, acc := [], poison := false, res := none, cancelled := false,
-      result := some (.ok []), failed := false, bgRead := false, streamFault := false }
+      result := some (.ok []), failed := false, bgRead := false, streamFault := false, ended := none,
+      timeoutFault := false }
   else
     { rpc := .send 0, vpc := .wait 0, mpc := .reading 2, wire := 0, served := 0, sem := 0, sig := 0, taken := 0,
       sendErr := none, recvErr := none, acc := [], poison := false, res := none, cancelled := false,
-      result := none, failed := false, bgRead := false, streamFault := false }
+      result := none, failed := false, bgRead := false, streamFault := false, ended := none,
+      timeoutFault := false }
 
 /-- main consumed a value from one of the two channels -/
 def mainGot (s : PState) (k : Nat) (v : Option Err) : Option PState :=
@@ -129,7 +136,17 @@ def step (closeFixed : Bool) (A : List Answer) : LTS.Step PState Label := fun s 
     | .send i =>
       if i < n then
         some { s with rpc := .done, sendErr := some (some e), failed := true,
-                      streamFault := s.streamFault || !s.cancelled }
+                      streamFault := s.streamFault || !s.cancelled,
+                      timeoutFault := s.timeoutFault || !s.cancelled }
+      else none
+    | _ => none
+  | .reqSendEOF =>
+    -- the stream has ended: grpc's SendMsg returns io.EOF ("call RecvMsg to get the status"); the
+    -- requester reports it like any other Send error and releases no token
+    match s.rpc with
+    | .send i =>
+      if i < n ∧ s.ended.isSome then
+        some { s with rpc := .done, sendErr := some (some ⟨codeEOF⟩), failed := true }
       else none
     | _ => none
   | .reqSignal =>
@@ -140,7 +157,8 @@ def step (closeFixed : Bool) (A : List Answer) : LTS.Step PState Label := fun s 
     match s.rpc with
     | .send i => if i < n then none else some { s with rpc := .done, sendErr := some none }
     | _ => none
-  | .serve => if s.served < s.wire then some { s with served := s.served + 1 } else none
+  | .serve => if s.served < s.wire ∧ s.ended = none then some { s with served := s.served + 1 } else none
+  | .streamEnd c => if s.ended = none then some { s with ended := some c, streamFault := true } else none
   | .rcvTake =>
     match s.vpc with
     | .wait i =>
@@ -166,11 +184,18 @@ def step (closeFixed : Bool) (A : List Answer) : LTS.Step PState Label := fun s 
         | none => none
       else none
     | _ => none
+  | .rcvStatus =>
+    -- nothing more to deliver and the stream has ended: Recv returns its status
+    match s.vpc, s.ended with
+    | .recv i, some c =>
+      if s.served ≤ i then some { s with vpc := .done, recvErr := some (some ⟨c⟩), failed := true } else none
+    | _, _ => none
   | .rcvFault e bg =>
     match s.vpc with
     | .recv _ =>
       some { s with vpc := .done, recvErr := some (some e), failed := true, bgRead := bg,
-                    streamFault := s.streamFault || !s.cancelled }
+                    streamFault := s.streamFault || !s.cancelled,
+                    timeoutFault := s.timeoutFault || !s.cancelled }
     | _ => none
   | .rcvFinish =>
     match s.vpc with
@@ -178,6 +203,8 @@ def step (closeFixed : Bool) (A : List Answer) : LTS.Step PState Label := fun s 
       if i < n then none
       else some { s with vpc := .done, res := some (s.acc, s.poison), recvErr := some none }
     | _ => none
+  -- the `select` of the `for range 2` loop: WHICH channel main reads first is the label; the first error
+  -- read is the function's error (the other goroutine's result is dropped)
   | .mainReadSend =>
     match s.mpc, s.sendErr with
     | .reading k, some v => if 0 < k then mainGot { s with sendErr := none } k v else none
